@@ -297,10 +297,16 @@ def check(spec, ctx):
     dt = spec["dt"]
     all_t = sorted(set(times_of(k1, g1.coordinates) + times_of(k2, g2.coordinates)))
     gaps = [b - a for a, b in zip(all_t, all_t[1:])] + ([tb] if tb > 0 else [])
-    shift_err = max(abs(((t + dt) - dt) - t) for t in all_t)
+    from fractions import Fraction as _Fr
+
+    shift_err = max(abs(float(_Fr(t + dt) - (_Fr(t) + _Fr(dt)))) for t in all_t)  # exact rounding error of each shifted time
     faithful = shift_err <= 1e-9 * min(gaps) if gaps else shift_err == 0
     if not faithful:
         ctx.label("shift_inexact_skipped")
+    if faithful and (in_f16_region(k1, b1, tb, fb) or in_f16_region(k2, b2, tb, fb)):
+        # the buffered extents themselves are only good to ~1e-3 buffers there (C11 finding F16) and move with the absolute position
+        faithful = False
+        ctx.label("shift_skipped_f16_region")
     if faithful and e1[0] > 0 and e2[0] > 0 and b1[0] - tb > 0 and b2[0] - tb > 0:
         try:
             h1 = data.geometry_validate({"type": k1, "coordinates": shift_spec_time(k1, g1.coordinates, dt)}, mode="dict")
